@@ -46,7 +46,28 @@ def _prune(prefix, keep):
                 pass
 
 
+class _Lock:
+    def __init__(self, name):
+        os.makedirs(BUILD, exist_ok=True)
+        self.path = os.path.join(BUILD, name + '.lock')
+
+    def __enter__(self):
+        import fcntl
+        self.f = open(self.path, 'w')
+        fcntl.flock(self.f, fcntl.LOCK_EX)
+
+    def __exit__(self, *a):
+        import fcntl
+        fcntl.flock(self.f, fcntl.LOCK_UN)
+        self.f.close()
+
+
 def ir_for(harness, lib_sources=(), extra_c=(), defines=(), tag=None):
+    with _Lock('ir.' + harness + (tag or '')):
+        return _ir_for(harness, lib_sources, extra_c, defines, tag)
+
+
+def _ir_for(harness, lib_sources=(), extra_c=(), defines=(), tag=None):
     """compile harness (a .cpp under /verif/harness) + selected library sources + extra C shims to one linked .ll"""
     os.makedirs(BUILD, exist_ok=True)
     hpath = os.path.join(VERIF, 'harness', harness)
@@ -86,6 +107,11 @@ def ir_for(harness, lib_sources=(), extra_c=(), defines=(), tag=None):
 
 
 def native_lib_objects():
+    with _Lock('native-lib'):
+        return _native_lib_objects()
+
+
+def _native_lib_objects():
     """g++ objects of the four library sources from the current tree (cached by hash); returns list of .o"""
     os.makedirs(BUILD, exist_ok=True)
     key = repo_hash()
@@ -108,6 +134,11 @@ def native_lib_objects():
 
 
 def native_so(harness, defines=(), with_lib=True, sanitize=False):
+    with _Lock('so.' + harness):
+        return _native_so(harness, defines, with_lib, sanitize)
+
+
+def _native_so(harness, defines=(), with_lib=True, sanitize=False):
     """shared object with the harness entry points linked against the current library sources"""
     hpath = os.path.join(VERIF, 'harness', harness)
     key = file_hash(hpath, extra=repo_hash() + ','.join(defines) + str(sanitize))
